@@ -77,8 +77,10 @@ def need100Continue (ver : Ver) (remainingUpload : Nat) (expect : Option Bytes) 
 
 /-- `keepalive_possible` -/
 def keepalivePossible (c : Conn) (r : Resp) : KA :=
-  if c.keepalive == .mustClose then .mustClose
-  else if r.upgrade then .mustUpgrade
+  -- FIX F37: the upgrade is decided before the "must close" state (an upgrade response hands the connection
+  -- over to the application; no `close` token may be put in front of its "Connection: Upgrade")
+  if r.upgrade then .mustUpgrade
+  else if c.keepalive == .mustClose then .mustClose
   else if c.readClosed || c.discardRequest then .mustClose
   else if r.flags.http10Strict then .mustClose
   else if r.fa.connClose then .mustClose
